@@ -175,6 +175,19 @@ func c06Mutations(r *rand.Rand, base *cfg.Config, maxK int, sampled int) []*cfg.
 	for _, m := range all {
 		out = append(out, apply([]mut{m}))
 	}
+	// whole sections gone: no parameter is declared at all (the references stay), every parameter renamed, no service declared
+	// (decorator arguments still refer to them)
+	for _, kind := range []string{"del-param", "ren-param", "del-svc"} {
+		var ms []mut
+		for _, m := range all {
+			if m.kind == kind {
+				ms = append(ms, m)
+			}
+		}
+		if len(ms) > 0 {
+			out = append(out, apply(ms))
+		}
+	}
 	for k := 0; k < sampled; k++ {
 		n := 2 + r.Intn(maxK-1)
 		var ms []mut
